@@ -607,7 +607,7 @@ theorem scope_truthful_cdb_value {subs : List Subnet} (hwf : SubnetsWF subs) {ma
 open DnsVerif.Codec DnsVerif.Rearr in
 /-- **scope_truthful_rdb**: the same on the RocksDB backends (v1 or v2 key layout — only `FindMap`
 differs), from `C03.rearrange_lpm_store`: `S` are the declared subnets of the name's client-subnet
-map (W0, W1, W3), the store holds the range points `Rearrange()` produced for it (`RdbRep`), the client
+map (W0, W1), the store holds the range points `Rearrange()` produced for it (`RdbRep`), the client
 address is masked to its prefix length (W4). -/
 theorem scope_truthful_rdb {S : List SubnetDecl} (hwf : SubsWF S) (hne : S ≠ [])
     (b : Backend) (hb : b = .rdbV1 ∨ b = .rdbV2) (s : Store) (q : Bytes) (e : Ecs) (m : Option Bytes)
